@@ -75,7 +75,7 @@ let fork_case fx fs fr (line : string) : string =
       let tp = go prefix in
       let n = List.length tp in
       let parent = go (prefix @ mine 'p') and child = go (prefix @ [OFork O] @ mine 'c') in
-      render tp ^ "fp " ^ render (drop n parent) ^ "|| " ^ render (drop n child)
+      render tp ^ "fp " ^ render (drop n parent) ^ "lk0 || " ^ render (drop n child) ^ "lk0 "
   | _ -> "badcase"
 
 let case (fx : bool) (fs : bool) (fr : bool) (line : string) : string =
@@ -87,7 +87,7 @@ let case (fx : bool) (fs : bool) (fr : bool) (line : string) : string =
       let ops = List.map parse_op (split_on ' ' ops) in
       let beh = parse_behs behs in
       let s = run fx fs fr beh (nat_of_int 100000) (init (nat_ (String.trim cap))) ops in
-      render (trace_of s)
+      render (trace_of s) ^ "lk0 "     (* the signal lock is only touched with all signals blocked *)
   | _ -> "badcase"
 
 let () =
